@@ -16,8 +16,11 @@ def sha(path):
   with open(path, "rb") as f: return hashlib.sha256(f.read()).hexdigest()
 
 
-def translate(top, P):
+def translate(top, P, placeholder=False):
   top.elaborate()
+  if placeholder:
+    from pymtl3.passes.backends.verilog import VerilogPlaceholderPass
+    top.apply(VerilogPlaceholderPass())
   top.set_metadata(P.enable, True)
   try:
     top.apply(P())
@@ -47,6 +50,8 @@ def main():
   for i, s in enumerate(batch.get("sources", [])):
     res = []
     for P in (VerilogTranslationPass, YosysTranslationPass):
+      if s.get("placeholder") and P is YosysTranslationPass:
+        res.append("skipped"); continue
       modname = f"vfc13_src_{i}"
       path = os.path.join(workdir, modname + ".py")
       with open(path, "w") as f: f.write(s["src"])
@@ -54,7 +59,7 @@ def main():
       mod = importlib.util.module_from_spec(spec); sys.modules[modname] = mod
       try:
         spec.loader.exec_module(mod)
-        res.append(translate(mod.Top(), P))
+        res.append(translate(mod.Top(), P, bool(s.get("placeholder"))))
       finally:
         sys.modules.pop(modname, None); os.remove(path)
     out["src"].append(res)
